@@ -5,6 +5,8 @@ CONSTANTS
   Initials <- Init2
   Replies <- SubsetReplies
   Mins <- MinsAll
+  ValClasses = {0, 1, 2}
+  VModes = {1}
   Orig = TRUE
 INVARIANTS AtMostOnce NoPanic ClosestTruthful AcceptedDistinct ErrIffBelowMin
 CHECK_DEADLOCK FALSE
